@@ -377,6 +377,7 @@ class Embedding(nn.Embedding):
             dtype=dtype,
         )
         self.weight = Parameter(self.weight.data, mup_type="weight")
+        self.weight.requires_grad_(not _freeze)
 
     def forward(self, input: Tensor) -> Tensor:
         return U.embedding(
